@@ -136,7 +136,9 @@ func checkC18(p *Prog, r *Report) {
 	r.rule("C18.R3", "update_ack is called only with the non-negative sample _itimediff(current, latest) and only for regular (non-FEC) packets", 1)
 	r.rule("C18.R4", "every decision to (re)transmit arms the timer: rto is taken from / advanced by rx_rto and resendts = current + rto in the same arm", 4)
 	r.rule("C18.R5", "a segment is sent only on evidence: first transmission, fastack >= resent (resent = fastresend if > 0 else never), early retransmit (fastack > 0, nothing new), or _itimediff(current, resendts) >= 0; fastack counts only acks of later segments sent no earlier", 5)
+	r.rule("C18.R7", "the sender's view of the peer's window comes from the peer only (constructor default, then the advertised wnd of regular packets): a locally invented larger value puts segments beyond the peer's window on the wire, where they are discarded and retransmitted on a clean path (= C03.P5)", 2)
 	r.rule("C18.R6", "GetRTO returns the core's rx_rto", 1)
+	delegate(p, r, "C03", checkC03, "C03.P5", "C18.R7")
 
 	rtoMin, rtoMax, rtoNdl := p.ConstInt("IKCP_RTO_MIN"), p.ConstInt("IKCP_RTO_MAX"), p.ConstInt("IKCP_RTO_NDL")
 	fRto := p.Field("KCP", "rx_rto")
